@@ -74,7 +74,7 @@ class C16(Prop):
         "accepted, truncating is not), exact-zero weights together with subsampling. "
         "Ownership: list-of-rows and numpy containers are run through the store model (pdList / pdMatrix: objects with identities, "
         "also a list in which one row object occurs several times); compared: the caller's X read back after the call and "
-        "whether the matrix shown to the predict function shares row objects / memory with the caller's X (never). "
+        "whether the matrix shown to the predict function shares row objects / memory with the caller's X is counted in the evidence (not a verdict). "
     )
     assumptions = ["np.random.default_rng(seed).choice is the documented draw; predict functions are row-wise"]
 
@@ -121,6 +121,11 @@ class C16(Prop):
                    # a Python list X in which equal rows are ONE object occurring several times
                    "share_rows": container in ("list", "list_np_int_rows") and rng.random() < 0.5,
                    "a": rng.randint(-2, 3), "b": rng.randint(-2, 2), "c": rng.randint(-1, 3)}
+
+    alias_counts: dict = {}
+
+    def extra_coverage(self):
+        return {"aliasing_observed": dict(self.alias_counts), "aliasing_in_model": "every shown row / matrix is a fresh object (C16_list_caller_unchanged)"}
 
     def subsample(self, case):
         n = len(case["rows"])
@@ -234,9 +239,10 @@ class C16(Prop):
             want = [[float(v) for v in dec_list(row)] for row in mo["caller_after"]]
             if io["after_rows"] != want:
                 return f"the caller's X after the call is {io['after_rows']}, model (ownership) {want}"
-            if io.get("aliased") is not None and io["aliased"] == mo["fresh"]:
-                return (f"the matrix shown to the predict function {'shares' if io['aliased'] else 'does not share'} objects / memory with the "
-                        f"caller's X; in the model every shown row is {'a fresh copy' if mo['fresh'] else 'the caller own object'}")
+            if io.get("aliased") is not None:
+                # evidence only: sharing objects with the caller without writing to them does not alter the caller's data
+                key = "shown_matrix_shares_with_caller" if io["aliased"] else "shown_matrix_is_fresh"
+                self.alias_counts[key] = self.alias_counts.get(key, 0) + 1
         return None
 
     @staticmethod
